@@ -45,7 +45,7 @@ def judge(rep, recs):
 
 def run(rep):
     fams = os.environ.get("C07_FAMS")
-    cases = c05.enumerate_programs(rep, "C07", rep.tier, cfg=ENUM_CFG, env={"FAMS": fams or "TS FO ER EL RP ML"})
+    cases = c05.enumerate_programs(rep, "C07", rep.tier, cfg=ENUM_CFG, env={"FAMS": fams or "TS FO ER EL RP ML CT"})
     if len(cases) < 300 and not fams:
         raise Machinery("enumeration produced only %d programs" % len(cases))
     cnt = {}
